@@ -45,5 +45,30 @@ def peak (n : Net) (rm : List Ix) (t : BT) (order : List BT) : Nat :=
     (tot - ((children p).map (n.sizeIn rm t)).sum, pk)
   (order.foldl step (tot0, tot0)).2
 
+/-! ### independent definition of peak memory along a schedule (used by `C03.peak_eq_spec`) -/
+
+def sumSz (sz : BT → Nat) (l : List BT) : Nat := (l.map sz).sum
+
+/-- the live tensors after the step `p`: both operands are consumed, the output is live -/
+def liveStep (av : List BT) : BT → List BT
+  | .node l r => .node l r :: (av.erase l).erase r
+  | .leaf _ => av
+
+/-- the largest memory requirement over the steps of `order`, started with `av` live: a step
+    needs all live tensors (its operands are among them) and its output at the same time -/
+def stepsPeak (sz : BT → Nat) : List BT → List BT → Nat
+  | _, [] => 0
+  | av, p :: rest => max (sumSz sz av + sz p) (stepsPeak sz (liveStep av p) rest)
+
+/-- the live tensors after a whole schedule -/
+def liveAfter : List BT → List BT → List BT
+  | av, [] => av
+  | av, p :: rest => liveAfter (liveStep av p) rest
+
+/-- one iteration of the loop of `peak_size` on `(tot_size, peak)` -/
+def peakStep (sz : BT → Nat) (acc : Nat × Nat) (p : BT) : Nat × Nat :=
+  let tot := acc.1 + sz p
+  (tot - ((children p).map sz).sum, max acc.2 tot)
+
 end Net
 end Cotengra
